@@ -316,6 +316,24 @@ Theorem in_date_is_the_named_range : forall fmt cy dts d z b e,
 Proof. exact in_date_lemma. Qed.
 Print Assumptions in_date_is_the_named_range.
 
+(* --start-of-week TEXT: an accepted text names a day 0..6 - the `0 <= sow < 7` of the theorems above -
+   and the letter case of the text does not matter (Monday, MON and monday configure the same day) *)
+Theorem week_start_text_names_a_day : forall s d, week_start_of_text s = Ok d -> 0 <= d < 7.
+Proof. exact week_start_range. Qed.
+Print Assumptions week_start_text_names_a_day.
+
+Theorem week_start_text_any_case : forall s s', map lower_byte s = map lower_byte s' ->
+  week_start_of_text s = week_start_of_text s'.
+Proof. exact week_start_case_insensitive. Qed.
+Print Assumptions week_start_text_any_case.
+
+(* Monday = 1, SAT = 6, 0 = Sunday; lundi and 7 are refused *)
+Example week_start_example :
+  week_start_of_text [77; 111; 110; 100; 97; 121] = Ok 1 /\ week_start_of_text [83; 65; 84] = Ok 6 /\
+  week_start_of_text [48] = Ok 0 /\ week_start_of_text [108; 117; 110; 100; 105] = Err EOther /\
+  week_start_of_text [55] = Err EOther.
+Proof. vm_compute. repeat split; reflexivity. Qed.
+
 (* the hypotheses are satisfiable, from the text: `to 2020/03/03 Every 2 Weeks from 2020/01/08`
    (bytes of the text; the two date words name days 18324 and 18269) *)
 Example expression_example :
